@@ -93,6 +93,8 @@ type Sched struct {
 	sigHash uint64
 
 	lastYieldWall int64
+	heldSites     [4]uintptr // where the hold strategy parked its victims
+	heldN         int
 }
 
 // S is the scheduler of the run in progress; nil when no multi-task simulation is active.
@@ -380,10 +382,12 @@ func (s *Sched) Yield(site uintptr) {
 		if !s.holdReleased && t.id == s.cfg.HoldTask && t.yields == s.cfg.HoldYield {
 			t.held = true
 			s.holdReleased = true
+			s.noteHeld(site)
 		}
 		if !s.hold2Released && s.cfg.HoldTask2 >= 0 && t.id == s.cfg.HoldTask2 && t.yields == s.cfg.HoldYield2 {
 			t.held = true
 			s.hold2Released = true
+			s.noteHeld(site)
 		}
 	}
 	next := s.pick(t)
@@ -395,6 +399,23 @@ func (s *Sched) Yield(site uintptr) {
 		s.switchTo(t, next)
 	}
 	s.epoch++
+}
+
+//go:norace
+func (s *Sched) noteHeld(site uintptr) {
+	if s.heldN < len(s.heldSites) {
+		s.heldSites[s.heldN] = site
+		s.heldN++
+	}
+}
+
+// HeldSites lists the yield sites at which the hold strategy parked a victim (harness, after the run).
+func (s *Sched) HeldSites() []string {
+	var out []string
+	for i := 0; i < s.heldN; i++ {
+		out = append(out, SiteName(s.heldSites[i]))
+	}
+	return out
 }
 
 //go:norace
